@@ -38,7 +38,7 @@ IsRatio(v) == v.lab = RatioB        \* the code's test: the word "ratio" occurs 
 
 I2(k) == RInt(k)
 NM == 2   \* months in a series
-ScalarNums == {<<I2(2), I2(4), I2(6)>>, <<I2(-1), I2(0), I2(3)>>, <<I2(5), I2(1), I2(1)>>}
+ScalarNums == {<<I2(2), I2(4), I2(6)>>, <<I2(-1), I2(0), I2(3)>>, <<I2(5), I2(1), I2(1)>>, <<I2(0), I2(0), I2(0)>>}
 SeriesNums == {<<<<I2(1), I2(2)>>, <<I2(3), I2(4)>>, <<I2(5), I2(6)>>>>,
                <<<<I2(-2), I2(0)>>, <<I2(1), I2(-1)>>, <<I2(4), I2(4)>>>>}
 
@@ -114,7 +114,7 @@ OpConvert(op, x) ==
                           ELSE [i \in 1..3 |-> [m \in 1..NM |-> conv(i, x.n[i][m])]])
 
 Unary == {"DivNum", "MulNum", "RMulNum", "Neg", "Abs", "NegToZero"}
-SeriesOps == {"GetMonth", "GetItem", "Sum", "MinAll", "MaxAll", "Running", "Shift1", "Slice", "Round"}
+SeriesOps == {"GetMonth", "GetItem", "GetItemNp", "Sum", "MinAll", "MaxAll", "Running", "Shift1", "Slice", "Round"}
 Binary == {"Add", "Sub", "MinElem", "DivFood", "MulFood"}
 
 Result(op, x, y) ==
@@ -122,7 +122,8 @@ Result(op, x, y) ==
     [] op = "DivFood" -> OpDivFood(x, y) [] op = "MulFood" -> OpMulFood(x, y)
     [] op = "DivNum" -> OpDivNum(x) [] op \in {"MulNum", "RMulNum"} -> OpMulNum(x)
     [] op = "Neg" -> OpNeg(x) [] op = "Abs" -> OpAbs(x) [] op = "NegToZero" -> OpNegToZero(x)
-    [] op \in {"GetMonth", "GetItem"} -> OpGetMonth(x, 2) [] op = "Sum" -> OpSum(x)
+    \* (GetItemNp: the index is a numpy integer)
+    [] op \in {"GetMonth", "GetItem", "GetItemNp"} -> OpGetMonth(x, 2) [] op = "Sum" -> OpSum(x)
     [] op = "MinAll" -> OpMinAll(x) [] op = "MaxAll" -> OpMaxAll(x) [] op = "Running" -> OpRunning(x)
     [] op = "Shift1" -> OpShift1(x) [] op = "Slice" -> OpSlice(x) [] op = "Round" -> OpRound(x)
     [] op = "MulArr" -> OpMulArr(x)
